@@ -92,6 +92,11 @@ func newEventFromUntrustedJSONV3(eventJSON []byte, roomVersion IRoomVersion) (PD
 	if err = json.Unmarshal(eventJSON, res); err != nil {
 		return nil, err
 	}
+	// The keys deleted above are gone from the JSON, but encoding/json matches member
+	// names to struct fields without regard to letter case: an "Event_ID" or "Unsigned"
+	// member must not stand in for them.
+	res.EventIDRaw = ""
+	res.eventFields.Unsigned = nil
 
 	// v3 events have room IDs as the create event ID.
 	// TODO: allow validation to be enhanced/relaxed to help users like Complement.
